@@ -2,7 +2,7 @@
 (* step st kind inputs = (st', expected observations).                                   *)
 (* Kinds flagged by is_monitor have inputs that are *observed* on the implementation and  *)
 (* a constant expected output: a mismatch there is a property violation on the real code. *)
-From VD Require Import Base.Words Model.Layout Model.Queue Extract.QueueIO Extract.QueueMon Extract.OwningIO Extract.MmioIO.
+From VD Require Import Base.Words Model.Layout Model.Queue Extract.QueueIO Extract.QueueMon Extract.OwningIO Extract.MmioIO Model.PciBus Extract.PciBusIO.
 
 Inductive mstate :=
 | MNone
@@ -16,7 +16,7 @@ Definition bad : list N := [77777].
 Definition is_diag (k : N) : bool := (k =? 140).
 
 Definition is_monitor (k : N) : bool :=
-  (k =? 1) || (k =? 2) || (k =? 612) || ((150 <=? k) && (k <? 160)) || (k =? 1950) || (k =? 1951) || mmio_is_monitor k.
+  (k =? 1) || (k =? 2) || (k =? 612) || ((150 <=? k) && (k <? 160)) || (k =? 1950) || (k =? 1951) || mmio_is_monitor k || pci_is_monitor k.
 
 Definition dir_reads (d : N) : bool := (d =? 0) || (d =? 2).
 Definition dir_writes (d : N) : bool := (d =? 1) || (d =? 2).
@@ -46,6 +46,7 @@ Definition step (st : mstate) (k : N) (ins : list N) : mstate * list N :=
     | [size; ind; ev] => (MQueue (qnew size (n2b ind) (n2b ev)), [])
     | _ => (st, bad) end
   else if (1000 <=? k) && (k <? 1100) then (st, mmio_step k ins)
+  else if (1200 <=? k) && (k <? 1300) then (st, pci_step k ins)
   else if k =? 1950 then (st, [b2n (mon_owning ins)])
   else if k =? 1951 then (st, [b2n (mon_input ins)])
   else if (1900 <=? k) && (k <? 1950) then
